@@ -274,6 +274,11 @@ func RunC10(env *Env, rep *Report) {
 		}
 		cases = append(cases, c10Case([][]string{a, a}, true, ""))
 	}
+	for _, where := range []string{"if", "else", "while", "case"} {
+		for _, kw := range []string{"end", "return"} {
+			cases = append(cases, c10NestedTerminatorCase(where, kw))
+		}
+	}
 	cases = append(cases, c10PoryswitchCase(true), c10PoryswitchCase(false), c10PoryswitchCaseOrder(true, true), c10PoryswitchCaseOrder(false, true), c10SwitchBodyCase(), c10NumberFormsCase(),
 		c10UnreachableStretchCase("after-infinite-loop"), c10UnreachableStretchCase("after-leaving-ifelse"), c10UnreachableStretchCase("after-break-in-loop"))
 	rep.Technique = "symbolic execution of the real command parser and renderer (go/ssa) with symbolic token literals; rope equalities between output lines and the token-wise reference, aliasing with constant names decided by the solver (z3)"
@@ -420,6 +425,61 @@ func c10UnreachableStretchCase(kind string) *Case {
 // c10NumberFormsCase: number tokens in every spelling the lexer accepts -
 // decimal, negative, hexadecimal with every digit in upper and lower case -
 // reach the output unchanged (the command names are symbolic).
+// c10NestedTerminatorCase: an explicit end / return written as the last
+// statement of a nested block (if, else, while, case body) that has code
+// after it is a command like any other: it is emitted, right after the command
+// written before it.
+func c10NestedTerminatorCase(where, kw string) *Case {
+	atoms := &AtomTable{Coded: true}
+	sname := atoms.New(ClsUserName, "script", "names")
+	c1 := atoms.New(ClsPlainCmd, "cmd", "cmds")
+	c2 := atoms.New(ClsPlainCmd, "cmd", "cmds")
+	c3 := atoms.New(ClsPlainCmd, "cmd", "cmds")
+	f := atoms.New(ClsIdent, "flag", "")
+	inner := "    " + c1.Placeholder() + "\n    " + kw + "\n"
+	var body string
+	switch where {
+	case "if":
+		body = "  if (flag(" + f.Placeholder() + ")) {\n" + inner + "  }\n"
+	case "else":
+		body = "  if (flag(" + f.Placeholder() + ")) {\n    " + c3.Placeholder() + "\n  } else {\n" + inner + "  }\n"
+	case "while":
+		body = "  while (flag(" + f.Placeholder() + ")) {\n" + inner + "  }\n"
+	case "case":
+		body = "  switch (var(" + f.Placeholder() + ")) {\n  case 1:\n" + inner + "  case 2:\n    " + c3.Placeholder() + "\n  }\n"
+	}
+	src := "script " + sname.Placeholder() + " {\n" + body + "  " + c2.Placeholder() + "\n}"
+	prog := &Program{Atoms: atoms, Tops: []interface{}{&TopRaw{Text: src}}}
+	cs := &Case{Name: "c10/nested-terminator/" + where + "/" + kw, Prog: prog, Variants: optVariants, NonTrivial: true, Shape: c10Shape{Cmds: []string{"nested-" + kw + "-in-" + where}}, MaxPaths: 16}
+	cs.Oracle = func(x *OracleCtx) *Violation {
+		for _, v := range x.Case.Variants {
+			res := x.Res[v.Name]
+			if res.Err.IsErr || res.Err.Panic != "" {
+				return &Violation{Sub: "verbatim", Msg: "variant " + v.Name + " rejected: " + interp.ToString(res.Err.Msg) + res.Err.Panic}
+			}
+			lines := nonBlank(outputLines(res.Out, false))
+			found := false
+			for i, l := range lines {
+				if sameValue(x.C, l, cat("\t", c1.Val)) == 1 {
+					found = true
+					if i+1 >= len(lines) || sameValue(x.C, lines[i+1], "\t"+kw) != 1 {
+						next := interp.Value("(end of output)")
+						if i+1 < len(lines) {
+							next = lines[i+1]
+						}
+						return &Violation{Sub: "verbatim", Msg: fmt.Sprintf("variant %s: the '%s' written after the command in the %s body is not emitted after it (next line: %s)", v.Name, kw, where, interp.ToString(next))}
+					}
+				}
+			}
+			if !found {
+				return &Violation{Sub: "verbatim", Msg: "variant " + v.Name + ": the command of the nested block is missing"}
+			}
+		}
+		return nil
+	}
+	return cs
+}
+
 func c10NumberFormsCase() *Case {
 	atoms := &AtomTable{Coded: true}
 	sname := atoms.New(ClsUserName, "script", "names")
